@@ -412,6 +412,8 @@ def _split_sig(sig):
 
 def _nonconst_args(n, out):
     info = n.callee_info
+    if (info.get("qn") or "").startswith("boost::operator%") or (info.get("qn") or "").startswith("boost::basic_format"):
+        return  # boost::format's operator% has T& overloads (for manipulators) but only reads its operand
     sig = _split_sig(info.get("sig", ""))
     args = n.call_args()
     if n.k == "CXXOperatorCallExpr" and not info.get("cls"):
